@@ -25,6 +25,7 @@ MAINT_RULE = ("maint engine: the seq engine restricted to one index action per o
 MAINT_ASSUME = ["single goroutine; the read buffer is one ring (no contention)", "maxima <= 12: hill-climber adjustment is 0 (floating point not modelled)",
                 "window / protected maxima are read from the implementation after SetMaximum (floating point)"]
 
+STRIPE = dict(engine="stripe", scale_quick=3, scale_thorough=30, timeout_quick=600, timeout_thorough=3000)
 RING = dict(engine="ring", scale_quick=6, scale_thorough=40, timeout_quick=600, timeout_thorough=3000)
 MPSC = dict(engine="mpsc", scale_quick=4, scale_thorough=30, timeout_quick=600, timeout_thorough=3000)
 
@@ -84,12 +85,18 @@ PROPS = {
                      "plus free-running runs of 1-8 producers against the consumer checked for exactly-once, per-producer order and the size bound; "
                      "distinct_nontrivial = distinct (accepted?, fill bucket, capacity) and stress configurations",
                 assumptions=["sequential consistency of sync/atomic", "the parked-producer schedules have one producer in flight at a time; arbitrary interleavings are exercised free-running only"]),
-    "C17": dict(engines=[RING],
-                rule="ring engine: 1-4 producers on one ring, macro schedules of whole adds, adds parked between the tail CAS and the slot store (hook), resumptions and whole drains; "
+    "C17": dict(engines=[RING, STRIPE],
+                rule="stripe engine (the tie between the Coq model of the striped table and the code): 200 schedules per unit of scale over 2-8 concurrent Add calls on a fresh striped buffer (maximum 1-8 stripes); every Add parks at the "
+                     "hook points of the table protocol (table load, cell load, loop head with its probe index, empty cell seen, inside/leaving stripe creation, after a failed ring add, inside/leaving the expansion, inside/leaving the table "
+                     "creation) and inside ring.add just before its tail CAS, so that a second Add on the same ring makes that CAS fail (two thirds of the schedules are biased towards this contention: it is the only way an expansion is requested); "
+                     "exactly one goroutine is resumed at a time; the replayer searches the model's inputs (ring.add outcome, fresh probe index, pre-check) for the shortest continuation that reproduces the observed busy flag, table length, number "
+                     "of rings and every thread's position and probe index; at the end one DrainTo must deliver exactly the elements whose Add returned Success, each once, and equal the model's rings; ring engine: 1-4 producers on one ring, macro schedules of whole adds, adds parked between the tail CAS and the slot store (hook), resumptions and whole drains; "
                      "status, drained values, head, tail and slot occupancy compared with the extracted small-step model after every macro step; plus 700 short rounds per unit of scale of a fresh striped buffer (up to 64 stripes) under 2-12 "
                      "recorders released together, a recorder that has seen an empty stripe slot being held back at a hook point while the others may expand the table, and a concurrent drainer checked for delivered-subset-of-recorded, no duplicates, capacity, complete quiescent drain and monotone stripe table; "
                      "distinct_nontrivial = distinct (status/drain size, number of parked producers) and stripe-table outcomes",
-                assumptions=["sequential consistency of sync/atomic", "CAS failures (status Failed) occur only in the free-running part", "counters do not wrap (2^64 adds)"]),
+                assumptions=["sequential consistency of sync/atomic", "in the ring engine CAS failures (status Failed) occur only in the free-running part; the stripe engine produces them deterministically", "counters do not wrap (2^64 adds)",
+                             "the striped model's rings are abstract (lists of recorded elements): the ring protocol itself is the Ring.v theorem; the two are composed informally",
+                             "the critical sections of the striped table (several accesses under the busy lock) are one step each in the model: their only visible write is the last one and the data they read is written only under the lock (mutual exclusion is proved)"]),
     "C04": dict(engines=[MAINT, SEQ], rule=MAINT_RULE, assumptions=MAINT_ASSUME),
     "C05": dict(engines=[MAINT], rule=MAINT_RULE, assumptions=MAINT_ASSUME),
     "C06": dict(engines=[SEQ, MAINT], rule=SEQ_RULE + "; OnDeletion vs OnAtomicDeletion multisets compared at quiescence of every case", assumptions=SEQ_ASSUME),
